@@ -140,8 +140,23 @@ def eval_case(case, rng, thorough):
     ab = outparse.Analysis(base.out)
     nontrivial = bool(ab.pkts)
     bad, classes, units = [], set(), 0
-    for label, keyfile, dsbs, opts in deliveries(rng, lines, quic, thorough):
+    dlist = deliveries(rng, lines, quic, thorough)
+    if not case.get("real") and len(flows) > 1:
+        # one DSB per connection, each placed right in front of its own connection's first packet (a capture put together connection by connection): every DSB
+        # is "before the packets" of the connection it serves, but behind the handshakes of the connections before it
+        dlist.append(("dsb-per-connection-in-front-of-its-packets", None, "per-connection", {}))
+        dlist.append(("dsb-per-connection-in-front-of-its-packets+file", ("\n".join(flows[0].keylog) + "\n").encode(), "per-connection-rest", {}))
+    for label, keyfile, dsbs, opts in dlist:
         blocks = list(pk)
+        if isinstance(dsbs, str):
+            blocks, seen = [], set()
+            for it, b in zip(items, pk):
+                if it.conn not in seen and 0 <= it.conn < len(flows):
+                    seen.add(it.conn)
+                    if not (dsbs == "per-connection-rest" and it.conn == 0):
+                        blocks.append(("dsb", ("\n".join(flows[it.conn].keylog) + "\n").encode()))
+                blocks.append(b)
+            dsbs = []
         pre = [("dsb", d_) for p_, d_ in dsbs if p_ == "pre-idb"]
         dsbs = [(p_, d_) for p_, d_ in dsbs if p_ != "pre-idb"]
         for pos, data in dsbs:
